@@ -154,6 +154,28 @@ func runC18(r *Runner, tier string, rng *Rng) {
 		}
 		r.St.Count("subst")
 		batch = append(batch, Case{Op: "subst", Args: map[string]any{"layout": WriteJ(lay, nil, false), "params": params}, Feat: feat, Trivial: len(params) == 0 && i%10 != 0})
+		if rng.Chance(4) {
+			// two calls in a row, in this process, with DIFFERENT dictionaries that read the same when
+			// names and values are simply written one after the other ({A:x, B:y} and {A:"x{B}y"}):
+			// each call is substituted with its own dictionary (seeded change c18-replacer-cache-key-collision)
+			a, b := rng.Pick(paramNames), rng.Pick(paramNames)
+			if a != b && isValidName(a) && isValidName(b) {
+				if b < a {
+					a, b = b, a
+				}
+				v1, v2 := genStr(rng, 0), genStr(rng, 0)
+				d1 := map[string]any{a: v1, b: v2}
+				d2 := map[string]any{a: v1 + "{" + b + "}" + v2}
+				if rng.Bool() {
+					d1, d2 = d2, d1
+				}
+				for _, d := range []map[string]any{d1, d2} {
+					r.St.Count("subst")
+					r.St.Count("colliding_dictionaries")
+					batch = append(batch, Case{Op: "subst", Args: map[string]any{"layout": WriteJ(lay, nil, false), "params": d}, Feat: "collide"})
+				}
+			}
+		}
 		if len(batch) >= 300 {
 			flush()
 		}
@@ -183,7 +205,7 @@ func runC18(r *Runner, tier string, rng *Rng) {
 		}
 	}
 	flush()
-	r.St.Rule = "layouts whose every string field (also fields that must not change) carries markers: known, unknown, adjacent, nested-looking ({{A}}, {A{B}}), with 0-6 parameters incl. invalid names (among them every ASCII neighbour of the allowed character ranges) and values that contain markers; compared: the whole returned layout and the caller's layout after the call; plus the replacer alone on marker-laden texts. Class = (number of parameters, validity, outcome prefix)."
+	r.St.Rule = "layouts whose every string field (also fields that must not change) carries markers: known, unknown, adjacent, nested-looking ({{A}}, {A{B}}), with 0-6 parameters incl. invalid names (among them every ASCII neighbour of the allowed character ranges) and values that contain markers, plus pairs of consecutive calls whose different dictionaries read alike when written out without separators; compared: the whole returned layout and the caller's layout after the call; plus the replacer alone on marker-laden texts. Class = (number of parameters, validity, outcome prefix)."
 }
 
 func isValidName(s string) bool {
